@@ -65,6 +65,12 @@ EXPORT const int64_t* spqlios_verif_events_data(void);  // records of 8 int64: k
 EXPORT void spqlios_verif_events_clear(void);
 EXPORT void spqlios_verif_set_tid(int64_t tid);
 EXPORT void spqlios_verif_event(int64_t kind, int64_t a0, int64_t a1, int64_t a2, int64_t a3, int64_t a4);
+// bit pattern of a double as an event argument (no pointer cast: the repository builds with -Wall -Werror at -O3)
+static inline int64_t spqlios_verif_dbits(double d) {
+  union { double d; int64_t i; } u;
+  u.d = d;
+  return u.i;
+}
 #ifdef __x86_64__
 #undef CPU_SUPPORTS
 #define CPU_SUPPORTS(xxxx) (spqlios_verif_cpu_allows(xxxx) && __builtin_cpu_supports(xxxx))
